@@ -5,6 +5,7 @@ from hypothesis import strategies as st
 from .. import gen
 from ..core import SubCheck
 from ..prog import run_program, READ_KINDS
+from ..oracle import LAZY_CHOICES
 from . import c06
 
 RULE = ("Histories = the C06 program space (construction, selections of selections, ufuncs, array functions, reductions, "
@@ -68,6 +69,28 @@ def twin_read_case(draw, tier):
             break
     k = max(1, min(k, len(base["steps"]) - 1))
     return {"lens": base["lens"], "steps": base["steps"], "k": k, "read": draw(st.sampled_from(READ_KINDS))}
+
+
+def body_shared_buffer(case, ctx):
+    """two arrays constructed on one buffer (the second on the flat view of the first, possibly strided or reversed):
+    world B looks at the second before the first is written; both worlds must end with the same contents"""
+    ctx.label("shared-buffer:" + case["steps"][case["k"] - 1][2], "read:" + str(case["read"]))
+    it, landed = run_program(case, "reads", ctx, reads=[[case["k"], -1, case["read"]]])
+    ctx.nt(landed > 0)
+
+
+@st.composite
+def shared_buffer_case(draw, tier):
+    lens = draw(gen.lengths(tier, min_rows=1, max_rows=5))
+    pre = draw(st.lists(st.one_of(*c06.PRODUCERS).map(list), max_size=1))
+    src = draw(st.sampled_from([0, 0, -1]))
+    steps = list(pre) + [["reflat", src, draw(st.sampled_from(["same", "reversed", "strided"]))]]
+    k = len(steps)
+    w = list(draw(c06.WRITER))
+    w[1] = src if src == 0 else -2          # the array whose buffer the new one was built on
+    steps.append(w)
+    steps += draw(st.lists(c06.OBSERVER, max_size=2))
+    return {"lens": lens, "steps": steps, "k": k, "read": draw(st.sampled_from(READ_KINDS))}
 
 
 def body_probe_k1(case, ctx):
@@ -249,7 +272,7 @@ def single_read_case(draw, tier):
         a = {"lens": lens, "dt": dt, "vals": draw(gen.flat_values(dt, sum(lens), specials=False))}
     else:
         a = draw(gen.ragged(tier, dts=[dt], min_rows=1, specials=False))
-    return {"a": a, "read": draw(st.sampled_from(SINGLE_READS)), "lz": draw(st.sampled_from([0, 0, 0, 1, 2, 3, 4, 5, 6]))}
+    return {"a": a, "read": draw(st.sampled_from(SINGLE_READS)), "lz": draw(st.sampled_from(LAZY_CHOICES))}
 
 
 SUBCHECKS = [
@@ -257,6 +280,9 @@ SUBCHECKS = [
              doc="program with vs. without inserted read-only operations (K1 region steered around)"),
     SubCheck("histories-coverage-guided", body_history, history_case, kind="atheris", quick=0, thorough=1200000, shards_thorough=16,
              doc="thorough only: atheris/libFuzzer drives the history strategy through Hypothesis' fuzz_one_input (16 campaigns)"),
+    SubCheck("shared-buffer-with-read", body_shared_buffer, shared_buffer_case, quick=4000, thorough=300000, shards_quick=3,
+             doc="a second array constructed on the (strided / reversed) flat view of the first; world B reads it before the first "
+                 "is written; final contents of both arrays must agree between the worlds"),
     SubCheck("twin-with-read", body_twin_read, twin_read_case, quick=8000, thorough=500000, shards_quick=5,
              doc="1-2 compounding selections; world B reads the deepest pending view; then one operation of the 40-operation "
                  "vocabulary on that view plus observers - same outcome in both worlds"),
